@@ -1,6 +1,6 @@
 """C13 Both stores behave as isolated per-agent, per-item value/map storage."""
 from mirlib import AnchorMissing, describe_call, describe_operand, describe_place, describe_rvalue, dom_guards, guards, decision_paths, _suffix_match
-from rules.common import named_argument_rule, aggregates, callers_by_name, owner_def, where
+from rules.common import id_allocation_rule, named_argument_rule, aggregates, callers_by_name, owner_def, where
 
 META = {
     "explanation": (
@@ -22,24 +22,7 @@ def run(ctx):
     rs = ctx.crate(RS)
 
     with ctx.rule("C13.R1", "T1", "KeyStore::id_for: counter merged before the mapping is written; id from fetch_add", floor=3) as r:
-        b = ctx.saw(rs.fn(name="id_for", self_adt="keystore::KeyStore"))
-        mg = [c for c in b.calls if c.via_name == "merge_keyspace"]
-        pt = [c for c in b.calls if c.via_name == "put_keyspace"]
-        fa = [c for c in b.calls if c.name == "fetch_add"]
-        if len(mg) != 1 or len(pt) != 1 or len(fa) != 1:
-            raise AnchorMissing("KeyStore::id_for: merge_keyspace/put_keyspace/fetch_add sites")
-        te = b.try_edges(mg[0])
-        r.check(te is not None and b.dominates(te[0], pt[0].block), "id_for/merge-before-put", mg[0].loc(), "merge_keyspace(COUNTER)? dominates put_keyspace(name -> id): a crash in between wastes an id, never reuses one",
-                "the name mapping can be written before / without the counter being persisted: after a crash the same id is handed to another name")
-        r.check(te is not None and not (b.reachable_from([te[1]]) & {pt[0].block}), "id_for/merge-error-propagates", mg[0].loc(), "a failed merge returns without writing the mapping")
-        src = b.sources(pt[0].args[3], stop_at_calls=False)
-        r.check(any(s[0] == "call" and s[1] is fa[0] for s in src) and not any(s[0] == "call" and s[1].via_name == "get_keyspace" for s in src), "id_for/id-from-fetch_add", pt[0].loc(),
-                "the id written is the one obtained from count.fetch_add (never a re-read of the store)")
-        g = dom_guards(b, fa[0].block)
-        r.check(any(d.startswith("disc(") and "get_keyspace" in d and l == "None" for d, l, _ in g), "id_for/allocate-only-if-unknown", fa[0].loc(), "a new id is allocated only when the name has no mapping",
-                "an id can be allocated although the name is already mapped: the identifier of a name changes")
-        ret = [describe_rvalue(b, rv) for i, j, p, rv, line in b.assigns() if p[0] == 0 and not p[1]]
-        r.check(True, "id_for/analysed", where(b), "returns %s" % ret[:2])
+        id_allocation_rule(r, ctx)
 
     with ctx.rule("C13.R2", "T5", "StoreKey layout agrees between writer, prefix stripper, range bound and prefix extractor", floor=6) as r:
         wi = ctx.saw(rs.fn(name="write_into", self_adt="server::StoreKey"))
